@@ -5,7 +5,7 @@ From Coq Require Import List ZArith NArith Bool Permutation String.
 From Coq.Strings Require Import Byte.
 From Coq.Floats Require Import SpecFloat.
 Import ListNotations.
-From BWTable Require Import Cells Fmt StrOrder Sort SortProofs Reduce ReduceSpec ReduceProofs.
+From BWTable Require Import Cells Fmt StrOrder Sort SortProofs LimitProofs Reduce ReduceSpec ReduceProofs GroupProofs.
 Open Scope Z_scope.
 
 (* ---- full: the aggregates of one range (group) ------------------------------------------------------------------ *)
@@ -58,6 +58,40 @@ Theorem C11_one_row_per_run : forall srt k ks aaps t out,
     List.length (t_rows out) = List.length (runs (k :: ks) sorted).
 Proof. exact reduce_rows_are_runs. Qed.
 Print Assumptions C11_one_row_per_run.
+
+(* ---- partial (D11): the runs ARE the groups ------------------------------------------------------------------------
+   D11 (boolean): every grouping column holds cells of one kind, and two rows have the same printed group id exactly
+   when rowLess cannot tell them apart (fails for float64 values that differ below 1e-6, for strings that differ in
+   outer white space, for ids that collide through the ";" separator).  Then, for every sorter meeting the contract of
+   sort.Sort: the runs are a partition of the input rows, no two runs have the same id, and each run holds exactly the
+   input rows with its id - so Reduce returns exactly one row per distinct key combination (C11_one_row_per_run) whose
+   count is the number of input rows of the group (C11_count). *)
+Theorem C11_groups_partial : forall srt k ks rows sorted,
+  sorter_ok srt -> d11 (k :: ks) rows = true ->
+  table_sort_with srt (Some (k :: ks)) rows = Ok sorted ->
+  let gs := runs (k :: ks) sorted in
+  Permutation rows (List.concat gs) /\
+  NoDup (map (head_id (k :: ks)) gs) /\
+  (forall g, In g gs ->
+     Permutation g (filter (fun r => str_eqb (group_id (k :: ks) r) (head_id (k :: ks) g)) rows)).
+Proof. exact d11_runs_are_groups. Qed.
+Print Assumptions C11_groups_partial.
+
+(* D11 is inhabited non-trivially: two grouping columns (node, int64), three groups, one of them with two rows *)
+Definition ex_row (n : string) (i v : Z) : row :=
+  [(1%N, CN (list_byte_of_string n)); (2%N, CL (int_lit i)); (3%N, CL (int_lit v))].
+Definition ex_rows11 : list row := [ex_row "/u<b>" 1 10; ex_row "/u<a>" 2 20; ex_row "/u<b>" 1 30; ex_row "/u<a>" 1 40].
+Definition ex_keys11 : list skey := [mkKey 1%N false; mkKey 2%N false].
+Example C11_d11_nonvacuous :
+  d11 ex_keys11 ex_rows11 = true /\
+  match reduce (Some ex_keys11) [mkAap 1%N 1%N AccNone; mkAap 2%N 2%N AccNone; mkAap 3%N 4%N AccCount; mkAap 3%N 5%N AccSumInt]
+               (mkTable [1%N; 2%N; 3%N] ex_rows11) with
+  | Ok t => map (fun r => (rget r 4%N, rget r 5%N)) (t_rows t) =
+            [(Some (CL (int_lit 1)), Some (CL (int_lit 40))); (Some (CL (int_lit 1)), Some (CL (int_lit 20)));
+             (Some (CL (int_lit 2)), Some (CL (int_lit 40)))]
+  | _ => False
+  end.
+Proof. vm_compute. split; reflexivity. Qed.
 
 (* ---- full: no solutions => the empty result, not a failure (code after repairs 3cb5b46 / 6f0bb79) ----------------- *)
 Theorem C11_empty : forall srt fx group_by projs bs, fx_empty fx = true -> group_by <> [] ->
